@@ -28,6 +28,7 @@ var ghostFields = map[string]ghostField{
 	"pay":      {bigByteArr, ArrS(BV(8))},              // payload the standard's EBSP decoder recovers from the output
 	"plen":     {types.Typ[types.Int], bv64},           // its length
 	"wdata":    {bigByteArr, ArrS(BV(8))},              // raw bytes written
+	"tr":       {types.Typ[types.Uint64], bv64},        // abstract trace of the chunks written (trApp/chU/chBytes/chEnc), for encoder-equivalence proofs
 	// abstract io.Reader
 	"rdata": {bigByteArr, ArrS(BV(8))},
 	"rlen":  {types.Typ[types.Int], bv64},
@@ -80,7 +81,7 @@ func (e *Enc) freshErr(st *State, reach string, rt types.Type) Val {
 func errorType() types.Type { return types.Universe.Lookup("error").Type() }
 
 func init() {
-	writerGhost := ghostKeys("wlen", "wz", "wlegal", "wesc", "wtight", "pay", "plen", "wdata")
+	writerGhost := ghostKeys("wlen", "wz", "wlegal", "wesc", "wtight", "pay", "plen", "wdata", "tr")
 	// io.Writer.Write(p) (n int, err error)
 	regExt("io.Writer.Write", "abstract writer: on success appends p (n==len(p)); on error appends a prefix; EBSP monitors updated per byte when len(p)==1",
 		writerGhost, func(e *Enc, fr *Frame, args []Val, st *State, reach string, pos token.Pos, rt types.Type) Val {
@@ -104,6 +105,7 @@ func init() {
 			simple := and(ok, one)
 			e.assume(imp(reach, and(imp(ok, eq(n, p.sLen())), imp(not(ok), and(app("bvsle", c64(0), n), app("bvsle", n, p.sLen()))))))
 			e.gset(st, "wlen", w, ite(ok, bvadd(wlen, p.sLen()), hv("wlen", bv64)))
+			e.gset(st, "tr", w, ite(ok, e.trApp(e.gget(st, "tr", w), e.chBytes(p)), hv("tr", bv64)))
 			e.gset(st, "wz", w, ite(simple, ite(isEsc, c64(0), ite(eq(b, bvInt(0, 8)), ite(eq(z, c64(2)), c64(2), bvadd(z, c64(1))), c64(0))), hv("wz", bv64)))
 			e.gset(st, "wlegal", w, ite(simple, and(legal, not(bad)), hv("wlegal", BoolS())))
 			e.gset(st, "wesc", w, ite(simple, isEsc, hv("wesc", BoolS())))
@@ -153,12 +155,19 @@ func init() {
 				e.gset(st, "plen", w, ite(ok, ite(isEsc, plen, bvadd(plen, c64(1))), hv("plen", bv64)))
 				e.gset(st, "wdata", w, ite(ok, sto(wdata, wlen, b), hv("wdata", ArrS(BV(8)))))
 			} else {
+				wlen0 := e.gget(st, "wlen", w)
 				for _, f := range []string{"wlen", "wz", "wlegal", "wesc", "wtight", "pay", "plen", "wdata"} {
 					e.gset(st, f, w, hv(f, ghostFields[f].S))
 				}
 				if width > 0 {
-					e.note("binary.Write of %d-bit value: only length is modelled", width)
+					e.gset(st, "wlen", w, ite(ok, bvadd(wlen0, c64(int64(width/8))), hv("wlen", bv64)))
+					e.note("binary.Write of %d-bit value: only length and trace chunk are modelled", width)
 				}
+			}
+			if width > 0 {
+				e.gset(st, "tr", w, ite(ok, e.trApp(e.gget(st, "tr", w), e.chU(width, resize(term, width, 64, false))), hv("tr", bv64)))
+			} else {
+				e.gset(st, "tr", w, hv("tr", bv64))
 			}
 			return err
 		})
